@@ -157,3 +157,57 @@ def ref_tm_run(js, word, k):
         trace.append((q, list(tape), head))
     verdict = True if q == js['q_accept'] else False if q == js['q_reject'] else None
     return verdict, trace
+
+
+# ------------------------------------------------------------------ context-free grammars
+def _is_var(s):
+    return not (len(s) == 1 and (s.islower() or s.isdigit()))
+
+
+def mk_cfg(js, mod=None):
+    if mod is None:
+        import gambatools.cfg as mod
+    sym = lambda s: mod.Variable(s) if _is_var(s) else mod.Terminal(s)
+    R = [mod.Rule(mod.Variable(X), mod.Alternative([sym(s) for s in rhs])) for X, rhs in js['R']]
+    return mod.CFG(set(mod.Variable(v) for v in js['V']), set(mod.Terminal(t) for t in js['Sigma']), R, mod.Variable(js['S']))
+
+
+def cfg_json_of(G):
+    return {'V': sorted(str(v) for v in G.V), 'Sigma': sorted(str(t) for t in G.Sigma), 'S': str(G.S),
+            'R': [[str(r.variable), [str(s) for s in r.alternative.symbols]] for r in G.R]}
+
+
+def ref_cfg_table(js, word):
+    """{(X, i, j)}: X derives word[i:j] -- naive least fixpoint over all spans (independent of CYK)"""
+    n = len(word)
+    V = list(js['V'])
+    T = set()
+    rules = [(X, tuple(rhs)) for X, rhs in js['R']]
+
+    def sym_ok(s, i, j):
+        if s in V:
+            return (s, i, j) in T
+        if _is_var(s):
+            return False
+        return j - i == 1 and word[i] == s
+
+    def match(rhs, i, j):
+        if not rhs:
+            return i == j
+        if len(rhs) == 1:
+            return sym_ok(rhs[0], i, j)
+        return any(sym_ok(rhs[0], i, k) and match(rhs[1:], k, j) for k in range(i, j + 1))
+    changed = True
+    while changed:
+        changed = False
+        for X, rhs in rules:
+            for i in range(n + 1):
+                for j in range(i, n + 1):
+                    if (X, i, j) not in T and match(rhs, i, j):
+                        T.add((X, i, j))
+                        changed = True
+    return T
+
+
+def ref_cfg_accepts(js, word):
+    return (js['S'], 0, len(word)) in ref_cfg_table(js, word)
